@@ -9,7 +9,7 @@ import (
 func init() {
 	register(&Property{
 		ID:          "C19",
-		Explanation: "Decides structural clauses of the raft core's log view: the fields of the in-memory log (entries, markerIndex, savedTo, appliedTo*, snapshot, shrunk) are written only by methods of the in-memory log itself; on the truncating branches of merge (entries re-assigned from anything but an append to the existing slice) savedTo is lowered on every path (truncate => re-persist); savedTo advances only under the index-bound and term-match tests; entries are handed out for apply only up to committed (and the apply range starts after processed); every Update passes validateUpdate (apply <= commit and apply <= save) before it leaves the peer; the persisted-ack (commitUpdate) is fed from the Update that was saved. Equality with the logical log model is declined.",
+		Explanation: "Decides structural clauses of the raft core's log view: the fields of the in-memory log (entries, markerIndex, savedTo, appliedTo*, snapshot, shrunk) are written only by methods of the in-memory log itself; on the truncating branches of merge (entries re-assigned from anything but an append to the existing slice) savedTo is lowered on every path (truncate => re-persist); savedTo advances only under the index-bound and term-match tests; entries are handed out for apply only up to committed (and the apply range starts after processed); every Update passes validateUpdate (apply <= commit and apply <= save) before it leaves the peer; the persisted-ack (commitUpdate) is fed from the Update that was saved. Equality with the logical log model is declined. The allocator trusted to return a fresh entry slice is checked to allocate; the log reader keeps nothing read from the store.",
 		NotCovered:  "equality of every log query with a reference log model over arbitrary interleavings (value-level; not applicable to static analysis)",
 		Run:         runC19,
 	})
